@@ -1,6 +1,7 @@
 package rules
 
 import (
+	"os"
 	"fmt"
 	"strings"
 
@@ -87,24 +88,35 @@ func c18(w *core.World, r *core.Report) {
 		// "EOF": a discard cannot be sent any more). A Close chosen for any other error (a timeout, a wider
 		// 'connection error' classification) leaves the edits in a candidate that lives on in the device.
 		closeOK := func() bool {
+			debugAtoms(c)
 			for _, a := range core.GuardAtoms(c) {
 				if !a.True {
 					continue
 				}
-				for _, oc := range core.OriginCalls(a.Cond) {
-					if !core.CalleeIs(oc, "strings.Contains") {
-						continue
-					}
-					if args := core.CallArgs(oc); len(args) == 2 {
-						if t, isC := core.ConstString(args[1]); isC && t == "EOF" {
-							return true
-						}
-						for _, o := range core.Origins(args[1]) {
-							if t, isC := core.ConstString(o); isC && t == "EOF" {
-								return true
+				// the condition IS the EOF test: every way its value comes about is strings.Contains(<text>, "EOF")
+				os := core.Origins(a.Cond)
+				all := len(os) > 0
+				for _, o := range os {
+					oc, isCall := o.(*ssa.Call)
+					isEOF := false
+					if isCall && core.CalleeIs(oc, "strings.Contains") {
+						if args := core.CallArgs(oc); len(args) == 2 {
+							if t, isC := core.ConstString(args[1]); isC && t == "EOF" {
+								isEOF = true
+							}
+							for _, o2 := range core.Origins(args[1]) {
+								if t, isC := core.ConstString(o2); isC && t == "EOF" {
+									isEOF = true
+								}
 							}
 						}
 					}
+					if !isEOF {
+						all = false
+					}
+				}
+				if all {
+					return true
 				}
 			}
 			return false
@@ -120,8 +132,8 @@ func c18(w *core.World, r *core.Report) {
 			if alwaysCalls(g, 0, kDrvDiscard) {
 				return true
 			}
-			if alwaysCalls(g, 0, kDrvDiscard, kDrvClose) {
-				return closeOK()
+			if alwaysCalls(g, 0, kDrvDiscard, kDrvClose, "datastore/target.ncTarget.Close") {
+				return closeOK() // judged at this call of the wrapper: a shared wrapper is guarded differently at each site
 			}
 			if core.FuncKey(g) == "datastore/target.ncTarget.Close" && mayCall(g, 0, kDrvClose) {
 				return closeOK()
@@ -173,11 +185,13 @@ func c18(w *core.World, r *core.Report) {
 
 		commits := core.CallsTo(fn, kDrvCommit)
 		discards := []ssa.CallInstruction{}
-		for _, c := range core.Calls(fn) {
-			if isDiscardOrClose(c) {
-				discards = append(discards, c)
+		core.WithHost(fn, func() {
+			for _, c := range core.Calls(fn) {
+				if isDiscardOrClose(c) {
+					discards = append(discards, c)
+				}
 			}
-		}
+		})
 		if tc.target == "running" {
 			r.Check(len(commits) == 0, "TYPESTATE", core.Site(fn, "no Commit"), w.Pos(fn.Pos()), "direct-to-running targets must not commit")
 			r.Check(!mayCall(fn, 1, kDrvDiscard), "TYPESTATE", core.Site(fn, "no Discard"), w.Pos(fn.Pos()), "direct-to-running targets have no candidate to discard")
@@ -226,7 +240,11 @@ func c18(w *core.World, r *core.Report) {
 				continue // error before anything was sent
 			}
 			nErr++
-			reach, tr := core.PathQuery{Avoid: isDiscardOrClose}.Reaches(edit.Block(), core.InstrIndex(edit)+1, func(in ssa.Instruction) bool { return in == ssa.Instruction(ret) })
+			var reach bool
+			var tr []int
+			core.WithHost(fn, func() {
+				reach, tr = core.PathQuery{Avoid: isDiscardOrClose}.Reaches(edit.Block(), core.InstrIndex(edit)+1, func(in ssa.Instruction) bool { return in == ssa.Instruction(ret) })
+			})
 			r.Check(!reach, "TYPESTATE", core.Site(fn, "error return after edit discards"), w.InstrPos(ret), fmt.Sprintf("an error return after the candidate was edited must pass Discard() or Close() on every path (blocks without it: %v)", tr))
 		}
 		r.Extra["candidate_success_returns"] = nSucc
@@ -378,3 +396,16 @@ func nilErrorReturns(f *ssa.Function, depth int) []*ssa.Return {
 	}
 	return out
 }
+
+func init() {
+	debugAtoms = func(c ssa.Instruction) {
+		if os.Getenv("DSCHECK_DEBUG_C18") == "" {
+			return
+		}
+		for _, a := range core.GuardAtoms(c) {
+			fmt.Println("  C18ATOM", c.Parent().Name(), a.Cond, a.True)
+		}
+	}
+}
+
+var debugAtoms func(ssa.Instruction)
